@@ -397,6 +397,18 @@ def opChain (j : Json) : Json :=
     Json.mkObj [("stages", Json.arr (out.map (fun x => Json.mkObj [
       ("input", Json.arr (x.1.map jsonOfRec).toArray), ("lines", Json.arr (x.2.map jsonOfRec).toArray)])).toArray)]
 
+/-! op `headers`: records → header names; and the value of `#name` / `#index` on every record -/
+def opHeaders (j : Json) : Json :=
+  let recs := (getArr j "recs").toList.map recOfJson
+  let hs := Headers.headersOf PyStr.strip recs
+  let names := (getArr j "names").toList.map (fun x => match x with | .str s => s | _ => "")
+  let vals := fun (r : Headers.HRef) => Json.arr (recs.map (fun l => match Headers.headerValue PyStr.strip hs l r with
+      | some v => toJson v | none => Json.null)).toArray
+  Json.mkObj [("headers", toJson hs),
+    ("by_name", Json.arr (names.map (fun n => vals (.name n))).toArray),
+    ("index_of", Json.arr (names.map (fun n => jOptNat (Headers.headerIndex hs n))).toArray),
+    ("by_index", Json.arr ((List.range (getNat j "width")).map (fun i => vals (.index i))).toArray)]
+
 def handle (line : String) : Json :=
   match Json.parse line with
   | .error e => Json.mkObj [("error", toJson s!"bad-json: {e}")]
@@ -414,6 +426,7 @@ def handle (line : String) : Json :=
     else if op == "rundirs" then opRunDirs j
     else if op == "archive" then opArchive j
     else if op == "chain" then opChain j
+    else if op == "headers" then opHeaders j
     else Json.mkObj [("error", toJson s!"bad-op: {op}")]
 
 partial def loop (h : IO.FS.Stream) (out : IO.FS.Stream) : IO Unit := do
